@@ -2,8 +2,8 @@
 `HasSideEffects` (selene-lib/src/ast_util/side_effects.rs), used by `ifs_same_cond` and `almost_swapped`.
 -/
 import Selene.Lints.TraverseB
-namespace Selene.Lints.SideEffects
-open Selene.Lua Selene.Lints
+namespace Selene.LintsB.SideEffects
+open Selene.Lua Selene.LintsB
 
 /-! ### `side_effects.rs`, arm by arm -/
 /-- `impl HasSideEffects for ast::Suffix`: `Suffix::Index(_) => false` — the bracket expression is not examined -/
@@ -43,4 +43,4 @@ def prefixSE : Prefix → Bool
   | .name _ => false
 end
 
-end Selene.Lints.SideEffects
+end Selene.LintsB.SideEffects
